@@ -64,8 +64,36 @@ VARIED_SHAPES = [''.join({'C': 'ab', ' ': ' ', '.': '-'}[c] for c in t)
                  if all(t[i] != t[i + 1] for i in range(n_ - 1))]
 
 
+def big_table(draw):
+    """More distinct values than any cap on what is fetched for a column
+    (1000, 4000): built, not drawn; the values that sort last are the
+    longest / the shortest / of another shape."""
+    n = draw(st.sampled_from([1100, 4200]))
+    tail = draw(st.sampled_from(['longer', 'shorter', 'other-shape']))
+    k = 12
+    body = ['k%05d' % i for i in range(n - k)]
+    if tail == 'longer':
+        last = ['zzzzzzzzzzzz%02d' % i for i in range(k)]
+    elif tail == 'shorter':
+        last = ['z%d' % i for i in range(10)] + ['y', 'z']
+    else:
+        last = ['z-%02d:%d' % (i, i) for i in range(k)]
+    cells = body + last
+    step = draw(st.sampled_from([1, 7, 11]))
+    cells = [cells[(i * step) % n] for i in range(n)]
+    cols = [{'name': 'txt', 'kind': 'ostr', 'cells': cells},
+            {'name': 'num', 'kind': 'int64',
+             'cells': [(i * 37) % 5003 for i in range(n)]}]
+    fr = S.restrict_frame({'n': n, 'cols': cols})
+    for c in fr['cols']:
+        c['decl'] = S.DECLS[c['kind']][0]
+    return fr
+
+
 @st.composite
 def table(draw):
+    if draw(st.integers(0, 59)) == 0:
+        return big_table(draw)
     n = draw(st.sampled_from([0, 1, 2, 3, 3, 4, 5, 6, 8, 12, 12, 28]))
     ncols = draw(st.integers(1, 4))
     names = draw(st.lists(st.one_of(st.sampled_from(AWKWARD_COLS),
@@ -212,9 +240,36 @@ def run(case, ctx):
     d = ctx.fresh_dir()
     path = os.path.join(d, 'd.sqlite3')
     tdda_path = os.path.join(d, 't.tdda')
+    if len(desc['cols']) % 2 == 1 or desc['n'] % 2 == 1:
+        # a history: the file held a table of the same name, with the same
+        # column names but other declared types, and was used; it has been
+        # deleted and recreated since
+        rot = ['int64', 'float64', 'boolean', 'ostr', 'dt64s']
+        vals = {'int64': [1, 2], 'float64': [1.5, 2.5],
+                'boolean': [True, False], 'ostr': ['x', 'yy'],
+                'dt64s': ['2001-01-01T00:00:00', '2002-02-02T00:00:00']}
+        decoy = {'n': 2, 'cols': []}
+        for c in desc['cols']:
+            k = rot[(rot.index(c['kind']) + 1 + len(c['name'])) % len(rot)]
+            if k == c['kind']:
+                k = rot[(rot.index(k) + 1) % len(rot)]
+            decoy['cols'].append({'name': c['name'], 'kind': k,
+                                  'cells': list(vals[k]),
+                                  'decl': S.DECLS[k][0]})
+        S.create_db(decoy, path)
+        okd, cd = S.discover(decoy, ctx, inc_rex=case['inc_rex'], path=path)
+        if okd and cd is not None:
+            okt, td = S.quiet_call(cd.to_json)
+            if okt:
+                with open(tdda_path, 'w', encoding='utf-8') as f:
+                    f.write(td)
+                S.verify(path, tdda_path)
+        out.label('history:database-file-recreated')
     S.create_db(desc, path)
     out.label('rex' if case['inc_rex'] else 'norex',
               'rows:%s' % ('0' if desc['n'] == 0 else '1+'))
+    if desc['n'] > 1000:
+        out.label('more-than-1000-distinct-values')
     for c in desc['cols']:
         out.label('decl:' + c['decl'].lower())
     ok, cons = S.discover(desc, ctx, inc_rex=case['inc_rex'], path=path)
